@@ -197,6 +197,16 @@ theorem other_index_never_counts (cd : Codec G) (f : List F) (hm : G) (hH : ∀ 
     have : (priEval f (i : Int) - priEval f (j : Int)) • hm = 0 := by rw [sub_smul, h4, sub_self]
     exact hne (sub_eq_zero.1 (hH _ this))
 
+/-- **a share of a member number beyond the 2-byte index format never counts**: `tbls.Sign` for member
+`i ≥ 2^16` labels `x_i • H(m)` with `i mod 2^16` (`C02.signed_share_index_truncated`); unless the two share
+keys coincide that is another member's number on this member's point – not a valid entry for anybody. -/
+theorem oversize_member_share_never_counts (cd : Codec G) (hcd : ∀ p, cd.decode (cd.encode p) = some p)
+    (f : List F) (hm : G) (hH : ∀ c : F, c • hm = 0 → c = 0) (n i : Nat)
+    (hne : priEval f (i : Int) ≠ priEval f ((i % 65536 : Nat) : Int)) :
+    validIdx cd f hm n (tblsSign cd f hm i) = none := by
+  obtain ⟨h1, h2⟩ := C02.signed_share_index_truncated cd f hm i
+  exact other_index_never_counts cd f hm hH n _ i (i % 65536) h1 (by rw [h2]; exact hcd _) hne
+
 /-- **shares under another group's polynomial never count** unless that polynomial has the same
 value at the member's point. -/
 theorem foreign_polynomial_never_counts (cd : Codec G) (f g : List F) (hm : G)
@@ -307,6 +317,12 @@ example : recover toyCodec [(4 : Zq 11), 3] 2 [[0, 2, 4], [0, 0, 3]] 2 3
             | exact Or.inl rfl
             | exact Or.inr rfl
             | exact absurd (by decide) he)
+
+open C02 in
+/-- `oversize_member_share_never_counts`: member 65538 (labelled 2; `f(65539) = 4 ≠ 2 = f(3)` mod 11) -/
+example : validIdx toyCodec [(4 : Zq 11), 3] 2 3 (tblsSign toyCodec [(4 : Zq 11), 3] 2 65538) = none :=
+  oversize_member_share_never_counts toyCodec toyCodec_roundtrip [(4 : Zq 11), 3] 2
+    (fun c h => (mul_eq_zero.1 (show c * 2 = 0 from h)).resolve_right (by decide)) 3 65538 (by decide)
 
 open C02 in
 /-- `other_message_never_counts`: member 2's share on the message point 3 offered for message
